@@ -32,6 +32,7 @@ def run(chk, tier):
     for cfg in configs(tier, thorough=('std', 'mocks', 'nostd-spin', 'nostd')):
         F = load(chk, cfg)
         E.eval_dyn_table(chk, F, 'R15.4', cfg)
+        E.eval_table(chk, F, 'R15.4.eval', cfg)      # (nothing in front of that resolution answers for it: eval() goes straight to it)
         from props import c13
         c13.helper_cell(chk, F, 'R15.6', cfg)
         L.clone_and_ctor(chk, F, 'R15.3.clone', cfg)
